@@ -85,10 +85,20 @@ func GetExtendedSpatialIdsWithinRadiusOfLine(startPoint *object.Point, endPoint 
 	// create megaboxIds
 
 	// Determine the number of layers around the spatialID to search.
-	// All SpatialIds are virtually the same size, so use the first to measure
-	hLayers, vLayers, error := FitClearanceAroundExtendedSpatialID(idsOnLine[0], radius)
-	if error != nil {
-		return nil, error
+	// The voxels of a line shrink towards the poles and idsOnLine has no defined order, so measure every
+	// voxel of the line and search the largest number of layers: the result then depends on the line only.
+	var hLayers, vLayers int64
+	for _, idOnLine := range idsOnLine {
+		hLayersOfID, vLayersOfID, error := FitClearanceAroundExtendedSpatialID(idOnLine, radius)
+		if error != nil {
+			return nil, error
+		}
+		if hLayersOfID > hLayers {
+			hLayers = hLayersOfID
+		}
+		if vLayersOfID > vLayers {
+			vLayers = vLayersOfID
+		}
 	}
 
 	// Return the SpatialIDs within the box created by hLayers and vLayers
